@@ -44,7 +44,7 @@
 //! verify the validity of C. This is done via an IPA proof for relation
 //! PoK { s in F^l : <s, LAGRANGE_BASES> = σ /\ <s, DUAL_MSM_RHS_BASES> = C }.
 
-use std::{collections::BTreeMap, io};
+use std::{cell::RefCell, collections::BTreeMap, io, rc::Rc};
 
 use group::Group;
 use midnight_circuits::{
@@ -115,6 +115,8 @@ pub struct LightAggregator<const NB_PROOFS: usize> {
     aggregator_vk: VerifyingKey,
     aggregator_pk: ProvingKey,
     lagrange_commitments: Vec<C>,
+    // Number of raw public inputs the aggregator circuit binds (recorded at key generation).
+    nb_public_inputs: usize,
 }
 
 #[derive(Clone, Debug)]
@@ -127,6 +129,8 @@ struct AggregatorCircuit<const NB_PROOFS: usize> {
     // This will be generalized in subsequent PRs.
     instances: Value<[[F; 2]; NB_PROOFS]>,
     proofs: [Value<Vec<u8>>; NB_PROOFS],
+    // Set during synthesis to the number of public inputs constrained by the circuit.
+    nb_public_inputs: Rc<RefCell<Option<usize>>>,
 }
 
 impl<const NB_PROOFS: usize> Circuit<F> for AggregatorCircuit<NB_PROOFS> {
@@ -217,6 +221,8 @@ impl<const NB_PROOFS: usize> Circuit<F> for AggregatorCircuit<NB_PROOFS> {
 
         verifier_chip.constrain_acc_as_public_input_with_committed_scalars(&mut layouter, &acc)?;
 
+        *self.nb_public_inputs.borrow_mut() = Some(scalar_chip.nb_public_inputs());
+
         scalar_chip.load(&mut layouter)?;
         sponge_chip.load(&mut layouter)?;
 
@@ -243,6 +249,7 @@ impl<const NB_PROOFS: usize> LightAggregator<NB_PROOFS> {
             ),
             instances: Value::unknown(),
             proofs: vec![Value::unknown(); NB_PROOFS].try_into().unwrap(),
+            nb_public_inputs: Rc::new(RefCell::new(None)),
         };
 
         // TODO: Remove, we are hardcoding BLS constants here.
@@ -256,6 +263,8 @@ impl<const NB_PROOFS: usize> LightAggregator<NB_PROOFS> {
 
         let aggregator_vk = keygen_vk(srs, &default_aggregator_circuit)?;
         let aggregator_pk = keygen_pk(aggregator_vk.clone(), &default_aggregator_circuit)?;
+        let nb_public_inputs = (*default_aggregator_circuit.nb_public_inputs.borrow())
+            .expect("synthesis records the number of public inputs");
 
         Ok(Self {
             inner_vk: inner_vk.clone(),
@@ -264,6 +273,7 @@ impl<const NB_PROOFS: usize> LightAggregator<NB_PROOFS> {
             // One Lagrange commitment per row: the committed instance column may hold a
             // scalar on any usable row.
             lagrange_commitments: srs.g_lagrange().to_vec(),
+            nb_public_inputs,
         })
     }
 
@@ -335,6 +345,7 @@ impl<const NB_PROOFS: usize> LightAggregator<NB_PROOFS> {
             ),
             instances: Value::known(instances.clone().map(|v| v.try_into().unwrap())),
             proofs: proofs.clone().map(Value::known),
+            nb_public_inputs: Rc::new(RefCell::new(None)),
         };
 
         let mut aggregator_instances = AssignedVk::<S>::as_public_input(&self.inner_vk);
@@ -435,6 +446,13 @@ impl<const NB_PROOFS: usize> LightAggregator<NB_PROOFS> {
                 .collect::<Vec<_>>(),
         );
 
+        // The shape of the accumulator is fixed by the aggregator circuit: the counts read from
+        // the proof must be the ones the circuit binds, otherwise trailing public inputs (and
+        // the bases they stand for) would be unconstrained.
+        if acc_lhs.bases().len() != NB_PROOFS || aggregator_instances.len() != self.nb_public_inputs {
+            return Err(Error::InvalidInstances);
+        }
+
         let proof_dual_msm = {
             prepare::<F, KZGCommitmentScheme<E>, T>(
                 &self.aggregator_vk,
@@ -455,7 +473,11 @@ impl<const NB_PROOFS: usize> LightAggregator<NB_PROOFS> {
         // We conclude by checking the IPA proof which guarantess the validity of
         // acc_rhs_evaluated.
         let mut bases1 = [acc_rhs_bases, fixed_bases.values().cloned().collect()].concat();
-        let mut bases2 = self.lagrange_commitments[..bases1.len()].to_vec();
+        let mut bases2 = self
+            .lagrange_commitments
+            .get(..bases1.len())
+            .ok_or(Error::InvalidInstances)?
+            .to_vec();
 
         let k = bases1.len().next_power_of_two();
         bases1.resize(k, C::identity());
